@@ -1,0 +1,193 @@
+//
+// Part of penne (verification seams, only compiled with `--cfg penne_verif`)
+//
+
+//! Seams that let an external explorer own the few sources of
+//! nondeterminism in the compiler: the iteration order of the import set
+//! in the expander and the random number generator of the token fuzzer.
+//! Nothing in this module changes behaviour unless a permutation or a tape
+//! has been installed on the current thread.
+
+use std::cell::RefCell;
+use std::collections::HashMap;
+use std::collections::HashSet;
+
+thread_local! {
+	static IMPORT_PERMUTATION: RefCell<Option<usize>> = RefCell::new(None);
+	static LAST_IMPORT_COUNT: RefCell<usize> = RefCell::new(0);
+	static TAPE: RefCell<Option<Tape>> = RefCell::new(None);
+}
+
+/// Select the k-th permutation (in lexicographic order of the sorted pairs)
+/// for the next calls of `expander::expand` on this thread.
+pub fn set_import_permutation(k: Option<usize>)
+{
+	IMPORT_PERMUTATION.with(|x| *x.borrow_mut() = k);
+}
+
+/// The number of import pairs seen by the last call of `expander::expand`.
+pub fn last_import_count() -> usize
+{
+	LAST_IMPORT_COUNT.with(|x| *x.borrow())
+}
+
+pub fn order_imports(imports: HashSet<(usize, usize)>) -> Vec<(usize, usize)>
+{
+	let selected = IMPORT_PERMUTATION.with(|x| *x.borrow());
+	let mut pairs: Vec<(usize, usize)> = imports.into_iter().collect();
+	LAST_IMPORT_COUNT.with(|x| *x.borrow_mut() = pairs.len());
+	let Some(mut k) = selected
+	else
+	{
+		// No permutation installed: keep the hash order of the set.
+		return pairs;
+	};
+	pairs.sort();
+	// Decode k in the factorial number system.
+	let mut result = Vec::with_capacity(pairs.len());
+	let mut factorial = 1usize;
+	for i in 1..=pairs.len()
+	{
+		factorial = factorial.saturating_mul(i);
+	}
+	k %= factorial.max(1);
+	for i in (1..=pairs.len()).rev()
+	{
+		factorial /= i;
+		let j = k / factorial.max(1);
+		k %= factorial.max(1);
+		result.push(pairs.remove(j));
+	}
+	result
+}
+
+/// A scripted sequence of answers for the fuzzer's random number generator.
+#[derive(Debug, Default, Clone)]
+pub struct Tape
+{
+	/// Answers for the successive draws marked with a label.
+	pub forced_by_label: HashMap<&'static str, Vec<u64>>,
+	/// Answers for specific draw indices (unlabelled draws).
+	pub forced_by_index: HashMap<usize, u64>,
+	/// Offset of the low-discrepancy baseline for all other draws.
+	pub baseline_offset: u64,
+	/// Maximum number of draws before the run is cut off.
+	pub horizon: usize,
+	/// Log of all draws: (label, raw answer).
+	pub log: Vec<(Option<&'static str>, u64)>,
+	label_counts: HashMap<&'static str, usize>,
+	pending_label: Option<&'static str>,
+}
+
+/// Payload of the panic raised when a tape runs past its horizon.
+pub struct HorizonReached;
+
+pub fn install_tape(tape: Tape)
+{
+	TAPE.with(|x| *x.borrow_mut() = Some(tape));
+}
+
+pub fn take_tape() -> Option<Tape>
+{
+	TAPE.with(|x| x.borrow_mut().take())
+}
+
+/// Mark the next draw with a label.
+pub fn choice(label: &'static str)
+{
+	TAPE.with(|x| {
+		if let Some(tape) = x.borrow_mut().as_mut()
+		{
+			tape.pending_label = Some(label);
+		}
+	});
+}
+
+fn scripted_u64() -> Option<u64>
+{
+	let result = TAPE.with(|x| {
+		let mut guard = x.borrow_mut();
+		let tape = guard.as_mut()?;
+		let i = tape.log.len();
+		if i >= tape.horizon
+		{
+			return Some(Err(()));
+		}
+		let label = tape.pending_label.take();
+		let forced = match label
+		{
+			Some(label) =>
+			{
+				let n = tape.label_counts.entry(label).or_insert(0);
+				let k = *n;
+				*n += 1;
+				tape.forced_by_label.get(label).and_then(|v| v.get(k)).copied()
+			}
+			None => tape.forced_by_index.get(&i).copied(),
+		};
+		let value = forced.unwrap_or_else(|| {
+			// Low-discrepancy (golden ratio) baseline.
+			(i as u64)
+				.wrapping_add(tape.baseline_offset)
+				.wrapping_mul(0x9E37_79B9_7F4A_7C15)
+		});
+		tape.log.push((label, value));
+		Some(Ok(value))
+	});
+	match result
+	{
+		Some(Ok(value)) => Some(value),
+		Some(Err(())) => std::panic::panic_any(HorizonReached),
+		None => None,
+	}
+}
+
+/// Wrapper around the fuzzer's RNG that answers from the installed tape,
+/// or forwards to the wrapped generator when no tape is installed.
+pub struct FuzzerRng<R>(pub R);
+
+pub fn fuzzer_rng<R>(inner: R) -> FuzzerRng<R>
+{
+	FuzzerRng(inner)
+}
+
+impl<R: rand::TryRng<Error = std::convert::Infallible>> rand::TryRng
+	for FuzzerRng<R>
+{
+	type Error = std::convert::Infallible;
+
+	fn try_next_u32(&mut self) -> Result<u32, Self::Error>
+	{
+		match scripted_u64()
+		{
+			Some(x) => Ok((x >> 32) as u32),
+			None => self.0.try_next_u32(),
+		}
+	}
+
+	fn try_next_u64(&mut self) -> Result<u64, Self::Error>
+	{
+		match scripted_u64()
+		{
+			Some(x) => Ok(x),
+			None => self.0.try_next_u64(),
+		}
+	}
+
+	fn try_fill_bytes(&mut self, dst: &mut [u8]) -> Result<(), Self::Error>
+	{
+		if TAPE.with(|x| x.borrow().is_some())
+		{
+			for chunk in dst.chunks_mut(8)
+			{
+				let x = scripted_u64().unwrap_or(0).to_le_bytes();
+				chunk.copy_from_slice(&x[..chunk.len()]);
+			}
+			Ok(())
+		}
+		else
+		{
+			self.0.try_fill_bytes(dst)
+		}
+	}
+}
